@@ -308,7 +308,7 @@ func c15NearDiagonal(g *hx.Gen, r int) string {
 }
 
 func c15Gen(g *hx.Gen) {
-	n := g.Scale(40, 2000)
+	n := g.Scale(300, 2000)
 	for i := 0; i < n && !g.Done(); i++ {
 		if i%5 == 4 {
 			res := []int{29, 30, 31, 32, 33, 0, 28, 1}
